@@ -127,6 +127,41 @@ def execute_enum(case):
     return out
 
 
+def _cluster_cases():
+    '''histories whose replies come from real workers
+    (worker.cluster.execute -> worker.Context.run -> Task/Analysis/Regress.do
+    on a real shelve store)'''
+    from hypothesis import strategies as st
+
+    from .. import engines
+
+    @st.composite
+    def build(draw):
+        spec = draw(engines.specs(max_algs=5, max_pkgs=2, min_algs=2,
+                                  feedback=False))
+        targets = draw(st.lists(st.sampled_from(sim.TARGET_POOL[:3]),
+                                unique=True, min_size=1, max_size=3))
+        n = len(spec['algs'])
+        op = st.one_of(
+            st.tuples(st.just('work'),
+                      st.sampled_from([0, 0, 0, 1, 2])).map(list),
+            st.tuples(st.just('work'),
+                      st.sampled_from([0, 0, 1, 2, 2])).map(list),
+            st.tuples(st.just('req'),
+                      st.lists(st.integers(0, n - 1), min_size=1, max_size=2),
+                      st.lists(st.integers(-1, 2), min_size=1,
+                               max_size=2)).map(list),
+            st.tuples(st.just('requp'), st.integers(0, 3)).map(list),
+            st.just(['tick']),
+        )
+        return {'spec': spec, 'targets': targets, 'bumped': [],
+                'workers': 0, 'real_store': True,
+                'ops': [['reqall']] + draw(st.lists(op, min_size=4,
+                                                    max_size=30))}
+
+    return build()
+
+
 def parts(tier):
     q = tier == 'quick'
     w = {}
@@ -142,4 +177,6 @@ def parts(tier):
                                    spec_kw={'min_algs': 2}),
             cases=320 if q else 8000, batch=80,
         ),
+        core.Part('cluster', execute, strategy=_cluster_cases(),
+                  cases=160 if q else 4000, batch=40),
     ]
